@@ -251,6 +251,9 @@ enum LenAd {
 enum End {
     Drop,
     Forget,
+    /// the caller's loop body panics (caught by the harness) while the iterator
+    /// is alive: the iterator is dropped during the unwinding
+    Panic,
     Len(LenAd),
     /// consuming methods with default implementations in terms of `next`
     Count,
@@ -277,6 +280,7 @@ fn parse_script(t: &[&str]) -> Script {
     let end = match e.as_slice() {
         ["drop"] => End::Drop,
         ["forget"] => End::Forget,
+        ["panic"] => End::Panic,
         ["len", "take", n] => End::Len(LenAd::Take(num(n))),
         ["len", "skip", n] => End::Len(LenAd::Skip(num(n))),
         ["len", "zip", n] => End::Len(LenAd::Zip(num(n))),
@@ -324,7 +328,7 @@ fn script_ok(full: bool, sc: &Script) -> bool {
     match sc.ad {
         // `it.skip(n)` exists for every iterator, but no call is ever issued
         // through it (Iter.v, ad_step): only the empty script is offered
-        Ad::Skip(_) => sc.steps.is_empty() && matches!(sc.end, End::Drop | End::Forget),
+        Ad::Skip(_) => sc.steps.is_empty() && matches!(sc.end, End::Drop | End::Forget | End::Panic),
         Ad::Direct => full || !(has_b || has_l || len_end),
         Ad::Rev => full && !len_end,
         Ad::Take(_) => !has_b && !len_end && (full || !has_l),
@@ -606,6 +610,10 @@ where
     match end {
         End::Drop => drop(x),
         End::Forget => std::mem::forget(x),
+        End::Panic => {
+            let _alive = x;
+            user_panic()
+        }
         End::Len(_) => unreachable!("len:* only with adaptor direct"),
         End::Count | End::Last | End::Collect => consume(x, end, ctx, out),
     }
@@ -631,6 +639,10 @@ where
             match sc.end {
                 End::Drop => drop(it),
                 End::Forget => std::mem::forget(it),
+                End::Panic => {
+                    let _alive = it;
+                    user_panic()
+                }
                 End::Len(la) => {
                     let r = match la {
                         LenAd::Take(n) => len_of(it.take(n)),
@@ -805,7 +817,8 @@ impl<H: BuildHasher + Default + Clone + std::fmt::Debug> Ex<H> {
             }
             Err(p) => {
                 out.clear();
-                if fuse.is_some() && is_fuse(&*p) {
+                let by_caller = user_panic_take();
+                if (fuse.is_some() || by_caller) && is_fuse(&*p) {
                     out.push_str("unwound");
                     unwound = true;
                     // (retain's drop guard lets the map finish its bookkeeping:
